@@ -350,7 +350,7 @@ pub fn sections() -> Vec<Box<dyn Section>> {
         Box::new(Random {
             name: "parse-long-inputs".into(),
             quick: 400,
-            thorough: 12_000,
+            thorough: 3_000,
             strategy: Box::new(|_| glong()),
             oracle: o_long,
             required: vec!["long-input", "input-of-half-a-MiB-or-more"],
